@@ -693,6 +693,19 @@ def check_C11(A: Analysis, tier):
                         f"H(pid+{show(next(iter(want)))}) only")
     rules.append(rb)
 
+    rc = Rule("C11", "C11.c", "every successful store_metadata has renamed the temp file holding the supplied bytes onto "
+              "the document's address (no path returns without publishing)", floor=2)
+    for m in ALL_MODES:
+        it = A.api("store_metadata", m)
+        for kind, label, st, _ in it.exits:
+            if kind == "return":
+                rc.ob()
+                rc.inst(f"store_metadata [{m}] normal exit")
+                if ("prim", "RENAME", 1, "META") not in st.done:
+                    rc.fail(Q("store_metadata"), "return without publishing", "store_metadata can return successfully on a path that never moved the "
+                            "new document into place: the previous version (or nothing) is what retrieve_metadata then returns")
+    rules.append(rc)
+
     rd = Rule("C11", "C11.d", "every normal path through delete_object calls delete_metadata(pid) with the format "
               "omitted (all documents)", floor=4)
     for m in ALL_MODES:
@@ -873,6 +886,18 @@ def check_C15(A: Analysis, tier):
                     rc.inst(f"{fn}:{ev.line} appends {showv(data)[:60]}")
                     if not all(tag(t) == "cat" and t[1][-1] == C("\n") and len(t[1]) == 2 for t in data):
                         rc.fail(fn, ev.node, "appended cid-list line is not `id + '\\n'`", A.p.loc(ev.func, ev.node))
+    for e in ("delete_object", "tag_object"):
+        it = A.api(e, "th")
+        for ev in it.events:
+            if ev.kind == "WRITE" and ev.prim in ("file.write", "file.writelines") and ev.func.qual == Q("_update_refs_file") \
+                    and len(ev.paths) > 1 and any(c.cls == "CIDREFS" for c in primary(ev.classes[0])) and ev.extra.get("mode", "").startswith("r+"):
+                rc.ob()
+                rc.inst(f"{ev.func.qual}:{ev.line} rewrites the list with {showv(ev.paths[1])[:60]}")
+                okd = all((tag(t) == "listof" and all(tag(x) == "line" for x in t[1])) or tag(t) == "line"
+                          or (tag(t) == "cat" and t[1][-1] == C("\n")) for t in ev.paths[1])
+                if not okd:
+                    rc.fail(ev.func, ev.node, "the cid list is rewritten with something other than its own newline-terminated lines: the "
+                            "one-pid-per-newline-terminated-line format is not preserved", A.p.loc(ev.func, ev.node))
     vr = A.p.func(Q("_verify_hashstore_references"))
     cmp_ok = any(isinstance(n, ast.Compare) and isinstance(n.ops[0], (ast.Eq, ast.NotEq)) and {norm(n.left), norm(n.comparators[0])} == {"retrieved_cid", "cid"}
                  for n in ast.walk(vr.node))
@@ -1002,7 +1027,8 @@ def whole_line_rule(A, rule):
                 rule.inst(f"{fq}: `{norm(n)}`")
                 rule.fail(f, n, f"identifier matched with .{n.func.attr}() instead of whole-line equality", A.p.loc(f, n))
         if found == 0:
-            rule.fail(f, "comparison with the identifier", f"{fq} no longer compares lines with the identifier (anchor lost)", A.p.loc(f, f.node))
+            rule.inst(f"{fq}: no comparison of a line with the identifier")
+            rule.fail(f, "comparison with the identifier", f"{fq} no longer compares each stripped line with the identifier for equality", A.p.loc(f, f.node))
 
 
 def check_C18(A: Analysis, tier):
